@@ -530,5 +530,132 @@ theorem mem_localhostAliases (recs : List HostsRecord) (x : Bytes) :
   · rintro ⟨r, ⟨hr, hl⟩, hx⟩; exact ⟨r, hr, hl, hx⟩
   · rintro ⟨r, hr, hl, hx⟩; exact ⟨r, ⟨hr, hl⟩, hx⟩
 
+/-! ## §6 reading the hosts file -/
+
+theorem hostsLines_ne_nil (t : Bytes) : hostsLines t ≠ [] := by
+  cases t with
+  | nil => simp [hostsLines]
+  | cons c cs =>
+    unfold hostsLines
+    split
+    · simp
+    · split <;> simp
+
+theorem hostsLines_cons_of_ne {c : UInt8} (hc : (c == 10) = false) (cs : Bytes) :
+    ∃ l ls, hostsLines cs = l :: ls ∧ hostsLines (c :: cs) = (c :: l) :: ls := by
+  cases h : hostsLines cs with
+  | nil => exact absurd h (hostsLines_ne_nil cs)
+  | cons l ls =>
+    refine ⟨l, ls, rfl, ?_⟩
+    rw [hostsLines, hc, h]
+    rfl
+
+/-- a line feed ends a line wherever it stands -/
+theorem hostsLines_append_nl (a b : Bytes) : hostsLines (a ++ 10 :: b) = hostsLines a ++ hostsLines b := by
+  induction a with
+  | nil => simp [hostsLines]
+  | cons c cs ih =>
+    by_cases hc : (c == 10) = true
+    · rw [List.cons_append, hostsLines, if_pos hc, ih]
+      conv => rhs; rw [hostsLines, if_pos hc]
+      rfl
+    · have hc' : (c == 10) = false := by simpa using hc
+      obtain ⟨l, ls, h1, h2⟩ := hostsLines_cons_of_ne hc' cs
+      obtain ⟨l', ls', h1', h2'⟩ := hostsLines_cons_of_ne hc' (cs ++ 10 :: b)
+      rw [List.cons_append, h2', h2]
+      rw [ih, h1] at h1'
+      simp only [List.cons_append, List.cons.injEq] at h1'
+      rw [← h1'.1, ← h1'.2]
+      rfl
+
+theorem hostsLines_of_no_nl (l : Bytes) (h : ∀ c ∈ l, (c == 10) = false) : hostsLines l = [l] := by
+  induction l with
+  | nil => rfl
+  | cons c cs ih =>
+    have hc := h c (List.mem_cons_self ..)
+    obtain ⟨l', ls, h1, h2⟩ := hostsLines_cons_of_ne hc cs
+    rw [ih (fun x hx => h x (List.mem_cons_of_mem _ hx))] at h1
+    simp only [List.cons.injEq] at h1
+    rw [h2, ← h1.1, ← h1.2]
+
+theorem looseRecords_cons_ok (m : Nat) (l : Bytes) (ls : List Bytes) (r? : Option HostsRecord)
+    (hl : readHostsLine m l = .ok r?) : looseRecords m (l :: ls) = r?.toList ++ looseRecords m ls := by
+  unfold looseRecords
+  rw [List.filterMap_cons]
+  cases r? with
+  | none => simp only [hl]; rfl
+  | some r => simp only [hl]; rfl
+
+/-- `Decode` succeeds exactly when every line can be read, and then yields what the line-by-line reader sees -/
+theorem decodeHostsLines_ok_iff (m : Nat) (ls : List Bytes) (recs : List HostsRecord) :
+    decodeHostsLines m ls = .ok recs ↔
+      (∀ l ∈ ls, ∃ r, readHostsLine m l = .ok r) ∧ recs = looseRecords m ls := by
+  induction ls generalizing recs with
+  | nil =>
+    simp only [decodeHostsLines, looseRecords, List.filterMap_nil, List.not_mem_nil, false_imp_iff, implies_true, true_and,
+      Except.ok.injEq]
+    exact eq_comm
+  | cons l ls ih =>
+    unfold decodeHostsLines
+    cases hl : readHostsLine m l with
+    | error e =>
+      simp only [List.mem_cons, forall_eq_or_imp, hl]
+      constructor
+      · intro h; cases h
+      · rintro ⟨⟨⟨r, hr⟩, _⟩, _⟩; cases hr
+    | ok r? =>
+      rw [looseRecords_cons_ok m l ls r? hl]
+      cases hd : decodeHostsLines m ls with
+      | error e =>
+        simp only [List.mem_cons, forall_eq_or_imp]
+        constructor
+        · intro h; cases h
+        · rintro ⟨⟨_, hall⟩, _⟩
+          have := (ih (looseRecords m ls)).mpr ⟨hall, rfl⟩
+          rw [hd] at this; cases this
+      | ok rs =>
+        obtain ⟨hall, hrs⟩ := (ih rs).mp hd
+        simp only [List.mem_cons, forall_eq_or_imp, Except.ok.injEq]
+        rw [← hrs]
+        cases r? with
+        | none =>
+          constructor
+          · intro h; exact ⟨⟨⟨_, hl⟩, hall⟩, h.symm⟩
+          · rintro ⟨_, h⟩; exact h.symm
+        | some r =>
+          constructor
+          · intro h; exact ⟨⟨⟨_, hl⟩, hall⟩, h.symm⟩
+          · rintro ⟨_, h⟩; exact h.symm
+
+/-- the first line that cannot be read decides: its error is the outcome, whatever stands before and after -/
+theorem decodeHostsLines_error_at (m : Nat) (xs ys : List Bytes) (l : Bytes) (e : HostsError)
+    (hx : ∀ x ∈ xs, ∃ r, readHostsLine m x = .ok r) (hl : readHostsLine m l = .error e) :
+    decodeHostsLines m (xs ++ l :: ys) = .error e := by
+  induction xs with
+  | nil => simp [decodeHostsLines, hl]
+  | cons x xs ih =>
+    obtain ⟨r, hr⟩ := hx x (List.mem_cons_self ..)
+    rw [List.cons_append, decodeHostsLines, hr]
+    simp only
+    rw [ih (fun y hy => hx y (List.mem_cons_of_mem _ hy))]
+
+/-- one unreadable line anywhere makes `Decode` fail -/
+theorem decodeHostsLines_error_of_mem (m : Nat) (ls : List Bytes) (l : Bytes) (e : HostsError)
+    (hm : l ∈ ls) (hl : readHostsLine m l = .error e) : ∃ e', decodeHostsLines m ls = .error e' := by
+  cases hd : decodeHostsLines m ls with
+  | error e' => exact ⟨e', rfl⟩
+  | ok recs =>
+    obtain ⟨r, hr⟩ := ((decodeHostsLines_ok_iff m ls recs).mp hd).1 l hm
+    rw [hl] at hr; cases hr
+
+theorem hpLocalhostOf_text_error {t : Bytes} {e : HostsError}
+    (h : decodeHostsLines hostsMaxToken (hostsLines t) = .error e) : hpLocalhostOf (.text t) = .error e := by
+  simp only [hpLocalhostOf, hpLocalhostOfWith, decodeHostsWith, h]
+
+theorem hpLocalhostOf_text_ok {t : Bytes} {recs : List HostsRecord}
+    (h : decodeHostsLines hostsMaxToken (hostsLines t) = .ok recs) :
+    hpLocalhostOf (.text t) = .ok (hpLocalhost (localhostAliases recs)) := by
+  simp only [hpLocalhostOf, hpLocalhostOfWith, decodeHostsWith, h]
+
 end C04
 end FwdVerif
